@@ -9,7 +9,7 @@ open Fbr.PtDir
 
 /-- placeholder while the engine is brought up: a zero-size request delivers nothing -/
 theorem size_zero_delivers_nothing (H : Host) (st : St) (plus : Bool) (h off : Nat) :
-    (read H st plus h 0 off none).2 = .ok [] := by
-  simp [read, doReaddir]
+    (readReq H st plus h 0 off none).2 = .ok [] := by
+  simp [readReq, doReaddir]
 
 end Fbr.Thm.C16
